@@ -194,8 +194,12 @@ def one_overload(P, R, f, tag):
             return
         if got.same(want):
             R.ok(rule, inst, describe)
-        else:
-            R.violation(rule, inst, "`%s %s %s` is not %s" % (T.text(node[3])[:30], node[2], T.text(node[4])[:160], describe), line=node[1], **where)
+            return
+        miss = RF.unknown_reference_symbols(want, f["body"], ignore=tuple(CONSTS) + ("kij", "sqrt", "log", "exp"))
+        if miss:
+            R.anchor_missing(rule, "%s: the reference formula names %s which no longer occur in %s (renamed?)" % (inst, miss, f["q"]))
+            return
+        R.violation(rule, inst, "`%s %s %s` is not %s" % (T.text(node[3])[:30], node[2], T.text(node[4])[:160], describe), line=node[1], **where)
 
     # ------------------------------------------------------------------ per-gas constants
     pa = assignments(f, "pr_a", member=True)
